@@ -37,6 +37,13 @@ def drive(recipe):
     out, hits = [], []
     completed = set()
     for n, (op, tgt) in enumerate(reqs):
+        if n % 2 == 1:
+            # what a scheduler or the REST bridge does between two requests: read-only queries on every pipeline
+            from eudoxia.workload.runtime_status import ASSIGNABLE_STATES
+            for p in w.pipes:
+                p.to_dict()
+                p.runtime_status().get_ops(ASSIGNABLE_STATES, require_parents_complete=False)
+                p.runtime_status().get_ops(ASSIGNABLE_STATES, require_parents_complete=True)
         before = w.states()
         counts_before = [[p.runtime_status().state_counts[s] for s in OST] for p in w.pipes]
         try:
